@@ -38,11 +38,14 @@ func (b stubBuilder) ParseConfig(js json.RawMessage) (serviceconfig.LoadBalancin
 	return &stubLBConfig{Raw: string(js)}, nil
 }
 
-func init() {
+// Registered during package variable initialisation, i.e. before every init()
+// of this package (some of which parse configs that name the stubs).
+var _ = func() bool {
 	for i := 0; i < nStubBuilders; i++ {
 		balancer.Register(stubBuilder{idx: i})
 	}
-}
+	return true
+}()
 
 // activeStubs is the registry of the run in progress (one run at a time per
 // process; set at the start of a run function and cleared at its end).
@@ -68,6 +71,7 @@ type childScript struct {
 type stubRun struct {
 	E        *core.Env
 	Scripts  []childScript
+	Default  childScript  // script of children built beyond len(Scripts)
 	Children []*stubChild // in build order
 	WG       sync.WaitGroup
 
@@ -81,6 +85,7 @@ type stubRun struct {
 
 func (r *stubRun) build(bidx int, cc balancer.ClientConn) balancer.Balancer {
 	c := &stubChild{Run: r, ID: len(r.Children), Builder: bidx, CC: cc}
+	c.Script = r.Default
 	if c.ID < len(r.Scripts) {
 		c.Script = r.Scripts[c.ID]
 	}
@@ -142,7 +147,8 @@ type stubChild struct {
 	// mu is taken and released at the entry of every call the parent makes
 	// into the child, as real policies do with their own mutex: it is a
 	// scheduling point exactly where real children have one.
-	mu sync.Mutex
+	mu   sync.Mutex
+	upMu sync.Mutex
 
 	BuiltSeq   uint64
 	Updates    []*stubPicker
@@ -155,6 +161,7 @@ type stubChild struct {
 	ExitCalls  int
 	SCStates   int
 	LastCCS    balancer.ClientConnState
+	User       any // per-check data
 }
 
 func (c *stubChild) Closed() bool { return c.CloseCalls > 0 }
@@ -192,7 +199,13 @@ func (c *stubChild) exec(acts []childAct, inline bool) {
 	}
 }
 
+// update publishes a new state. A child serialises its own UpdateState calls
+// (real policies call out under their own mutex), so its updates reach the
+// parent in tag order even when the parent calls into the child while the
+// child's own goroutine is reporting.
 func (c *stubChild) update(s connectivity.State) {
+	c.upMu.Lock()
+	defer c.upMu.Unlock()
 	p := &stubPicker{Child: c, Tag: len(c.Updates), State: s}
 	c.Updates = append(c.Updates, p)
 	c.Run.E.Logf("child%d update#%d %v call", c.ID, p.Tag, s)
@@ -288,28 +301,4 @@ func (c *stubChild) Close() {
 		c.CloseSeq = c.Run.E.Seq
 	}
 	c.exec(c.Script.OnClose, true)
-}
-
-// genActs generates n scripted actions; sleeps only when own is true.
-func genActs(r *core.Rand, n int, own bool, gaps []int64) []childAct {
-	var out []childAct
-	for i := 0; i < n; i++ {
-		switch x := r.Intn(16); {
-		case x < 9:
-			out = append(out, childAct{K: "state", S: r.Intn(4)})
-		case x < 11:
-			out = append(out, childAct{K: "newsc"})
-		case x < 12:
-			out = append(out, childAct{K: "shutsc", S: r.Intn(3)})
-		case x < 13:
-			out = append(out, childAct{K: "resolvenow"})
-		default:
-			if own {
-				out = append(out, childAct{K: "sleep", N: core.Pick(r, gaps...)})
-			} else {
-				out = append(out, childAct{K: "state", S: r.Intn(4)})
-			}
-		}
-	}
-	return out
 }
